@@ -9,6 +9,8 @@ import RsddModel.Driver.UpStream
 import RsddModel.Driver.TdStream
 import RsddModel.Driver.CompStream
 import RsddModel.Driver.QueryStream
+import RsddModel.Driver.CnfStream
+import RsddModel.Driver.SerLines
 /-!
 # Line-protocol driver
 
@@ -36,6 +38,8 @@ def judge (line : String) : String :=
     | "td" => checkTdLine kvs rhs
     | "comp" => checkCompLine kvs rhs
     | "query" => checkQueryLine kvs rhs
+    | "cnf" => checkCnfLine kvs rhs
+    | "ser" => checkSerLine kvs rhs
     | _ => s!"FAIL PARSE unknown stream {stream}"
 
 partial def loop (h : IO.FS.Stream) : IO Unit := do
